@@ -56,6 +56,15 @@ Proof.
   exact (segprefix_guard_sound g cwd (oc_root op) p a Hg Hc Hres).
 Qed.
 
+(** Steps through a FileSystemChain are ordinary steps: what the member's site receives is [chain_access] of SM/PathOps.v. *)
+Lemma chain_step_is_chain_access g cwd root_arg c s i op :
+  chain_step g cwd root_arg true c s i = Some op ->
+  op_plain g cwd op = chain_access g cwd root_arg i c s /\ oc_root op = root_arg /\ oc_con op = true /\ oc_site op = s.
+Proof.
+  unfold chain_step, chain_access, op_plain. destruct (peval g true cwd root_arg i (cc_arg c)) as [a|]; [|discriminate].
+  intro H. inversion H; subst op. cbn. repeat split.
+Qed.
+
 Open Scope string_scope.
 (** The fault history on the level of operations: an unconstrained RawFileSystem('/t/root') opens '../secret.txt'
     (allowed: it is exempt), then a constrained one on the same folder is asked to open the same name. *)
